@@ -68,6 +68,12 @@ def _random_case(seed: int) -> dict:
         if kind == "wait_for":
             op["timeout"] = rng.choice([None, 0.5, 2.0])
         ops.append(op)
+    if rng.random() < 0.1:
+        t0 = rng.choice([0.5, 595.0, 890.0, 1495.0])
+        ops.append({"t": t0, "op": "add", "id": list(rng.choice(IDS)), "delay": rng.choice([10.0, 650.0, 1000.0]), "fut": rng.choice([None, "value", "two"]),
+                    "react": None})
+        if rng.random() < 0.6:
+            ops.append({"t": t0 + rng.choice([0.5, 3.0]), "op": "wall_jump", "id": list(IDS[0]), "delta": rng.choice([-3600.0, 650.0, 3600.0])})
     ops.sort(key=lambda o: o["t"])
     knobs = {"timer_jitter": rng.choice([0.0, 0.0, 1e-5, 1e-3, 0.05])}
     return {"scenario": "random", "seed": seed, "knobs": knobs, "ops": ops, "horizon": horizon + 12.0}
@@ -102,7 +108,28 @@ def _grid_cases():  # noqa: ANN202
                     yield {"scenario": "grid", "seed": n, "knobs": knobs, "ops": ops, "horizon": 4.0}
 
 
+def _long_cases():  # noqa: ANN202
+    """Requests that stay outstanding for a long time (the TaskManager's periodic task-age check runs at 900 s, 1500 s, ...) and
+    wall-clock steps while requests are outstanding."""
+    knobs = {"timer_jitter": 0.0, "exec_cost": (0.0, 0.0)}
+    n = 0
+    for delay in (700.0, 1000.0, 1600.0):
+        for fut in ("value", "two", None):
+            n += 1
+            yield {"scenario": "long", "seed": 9000 + n, "knobs": knobs, "horizon": delay + 20.0,
+                   "ops": [{"t": 1.0, "op": "add", "id": ["g", 0], "delay": delay, "fut": fut, "react": None},
+                           {"t": 2.0, "op": "add", "id": ["g", 1], "delay": 2.0, "fut": "value", "react": None}]}
+    for delta in (3600.0, -3600.0, 700.0):
+        for t_add in (880.0, 897.0, 1490.0):
+            n += 1
+            yield {"scenario": "long", "seed": 9000 + n, "knobs": knobs, "horizon": t_add + 40.0,
+                   "ops": [{"t": t_add, "op": "add", "id": ["g", 0], "delay": 10.0, "fut": "value", "react": None},
+                           {"t": t_add + 1.0, "op": "wall_jump", "id": ["g", 0], "delta": delta},
+                           {"t": t_add + 2.0, "op": "add", "id": ["g", 1], "delay": 10.0, "fut": "two", "react": None}]}
+
+
 def cases(tier: str, base_seed: int):  # noqa: ANN201
+    yield from _long_cases()
     if tier == "thorough":
         yield from _grid_cases()
     else:
@@ -432,6 +459,11 @@ def execute(case: dict) -> dict:  # noqa: C901, PLR0915
             if ident in model and not (f.done() and f.result() is model[ident]):
                 c.violate("lookup", "wait_for_outstanding_not_immediate", f"{ident}")
             log.append(("wait_for", ident, f.done()))
+        elif kind == "wall_jump":
+            # the wall clock steps (NTP correction, resume from suspend); timers run on the loop's monotonic clock
+            c.world.set_skew(None, c.world.skew.get(None, 0.0) + float(op["delta"]))
+            c.world.fault("clock_jump")
+            log.append(("wall_jump", None, op["delta"]))
         elif kind == "clear":
             rc.clear()
             for t in list(model.values()):
@@ -464,7 +496,7 @@ def execute(case: dict) -> dict:  # noqa: C901, PLR0915
         for op in case["ops"]:
             loop.call_at(op["t"], do_op, op)
         # every operation is issued, and every time-out armed by it can fire, before the final inspection
-        horizon = max([case["horizon"]] + [op["t"] + 11.0 for op in case["ops"]])
+        horizon = max([case["horizon"]] + [op["t"] + max(10.0, op.get("delay") or 0.0) + 1.0 for op in case["ops"]])
         await asyncio.sleep(horizon)
         # liveness: whatever is still outstanding must not be past its deadline (+ lateness bound)
         now = loop.time()
